@@ -484,7 +484,7 @@ class TermModel:
             elif n in STYLE_OFF:
                 stl &= ~STYLE_OFF[n]
             elif n == 21:
-                stl &= ~BOLD
+                stl |= UNDERLINE      # (xterm: doubly underlined; it does not switch bold off)
             elif 30 <= n <= 37:
                 fg = n
             elif n == 39:
